@@ -213,13 +213,13 @@ def structured_fives(rng, op):
 
 def c01_families(rng, tier):
     n = 200000 if tier == "quick" else 2000000
-    sh, cats = shuffled_fives(rng, n, "rank 5")
+    sh, cats = shuffled_fives(rng, n, "rankv 5")
     return [
-        fam_cmd("fives_deck_order", ["hands", "--k", "5", "--op", "rank 5"],
+        fam_cmd("fives_deck_order", ["hands", "--k", "5", "--op", "rankv 5"],
                 "ALL 2,598,960 five-card subsets of the deck in deck order through all six five-card entry points "
                 "(hand_rank_value, hand_rank, hand_rank_value_and_hand, hand_rank_value_validated, hand_rank_validated, "
                 "evaluate::five_cards); every case distinct and non-trivial (a real hand)", pinned=True),
-        fam("fives_structured", structured_fives(rng, "rank 5"),
+        fam("fives_structured", structured_fives(rng, "rankv 5"),
             "straights, straight flushes, wheels and repeated-rank hands spanning five ranks, shuffled slots", pinned=True),
         fam("fives_shuffled", sh, "seeded random five distinct cards in random slot order; non-trivial = distinct line",
             categories=cats, pinned=True),
@@ -400,28 +400,22 @@ def c02_families(rng, tier):
 
 def c03_families(rng, tier):
     n5 = 20000 if tier == "quick" else 200000
-    sh, cats = shuffled_fives(rng, n5, "rank 5")
-    # the property lets the code report ANY sorted witness of the best value; the model reports the first minimal one,
-    # so an exact disagreement is not by itself a failing input (the oracle decides)
-    fams = six_seven_families(rng, tier, "rank", "value and reported hand compared exactly", pinned=False)
+    sh, cats = shuffled_fives(rng, n5, "wit 5")
+    # projection `wit`: both sides print whether the reported hand is drawn from the input, duplicate-free, descending and
+    # re-ranks to the reported value (the property lets the code report ANY such witness, so the cards are not compared)
+    fams = six_seven_families(rng, tier, "wit", "is the reported hand a sorted witness re-ranking to the reported value")
     fams.append(fam("fives_identity", sh, "five-card hands: the reported hand is the input", categories=cats, pinned=True))
     return fams
 
 
 def c09_families(rng, tier):
-    import itertools
-    n = 1500 if tier == "quick" else 30000
-    lines = []
-    for i in range(n):
-        h = rand_hand(rng, 7) if i % 3 else [int(x) for x in made_hands(rng, 7, 1, "x")[0].split()[1:]]
-        lines.append(line("rankv 7", h))
-        for s6 in itertools.combinations(h, 6):
-            lines.append(line("rankv 6", rng.shuffle(list(s6))))
-        for s5 in itertools.combinations(h[:6], 5):
-            lines.append(line("rankv 5", list(s5)))
+    n = 6000 if tier == "quick" else 120000
+    lines = [line("chain7", rand_hand(rng, 7)) for _ in range(n)]
+    lines += [l.replace("x ", "chain7 ", 1) for l in made_hands(rng, 7, n // 2, "x")]
+    lines += [l.replace("x 7 ", "chain7 ", 1) for l in row_targeted(rng, 7, "x 7")]
     return [fam("seven_six_five_chains", lines,
-                "seeded sevens (one third built around a made hand), each with all seven six-card sub-hands (shuffled) and the "
-                "six five-card sub-hands of its first six cards; the same ranking entry points on related hands", pinned=True)]
+                "seeded, made and row-targeted sevens: v7 <= all seven six-card values, v7 = their minimum, each v6 <= its six "
+                "five-card values and equals their minimum (projection: booleans only; 1 + 7 + 42 rankings per case)", pinned=True)]
 
 
 # ---- C04 ----------------------------------------------------------------------------------------------
@@ -537,16 +531,16 @@ def c08_families(rng, tier):
     val = []
     for i in range(n // 2):
         k = 5 + i % 3
-        h = rand_hand(rng, k)
-        val.append(line("rankv %d" % k, h))
-        for _ in range(3):
-            h = [shift_word(w) for w in h]
-            val.append(line("rankv %d" % k, h))
+        val.append(line("shiftinv %d" % k, rand_hand(rng, k)))
+    val += [l.replace("x ", "shiftinv 6 ", 1) for l in made_hands(rng, 6, n // 10, "x")]
+    val += [l.replace("x ", "shiftinv 7 ", 1) for l in made_hands(rng, 7, n // 10, "x")]
+    val += [l.replace("x", "shiftinv", 1) for l in row_targeted(rng, 6, "x 6") + row_targeted(rng, 7, "x 7")]
     return [
         fam("shift_card", ["shift %d" % w for w in DECK + [0]], "shift_suit on all 52 cards and blank", exhaustive=True, pinned=True),
         fam("shift_words", ["shift %d" % w for w in near_miss_words()], "shift_suit on near-miss words (beyond the property: ties the model's logic)"),
         fam("shift_hands", hands, "shift_suit of Two..Seven over cards (and blanks) in random order: slot-wise", categories=cats, pinned=True),
-        fam("value_orbits", val, "seeded five/six/seven-card hands and their three successive suit shifts through the ranking entry points", pinned=True),
+        fam("value_invariance", val, "seeded, made and row-targeted five/six/seven-card hands: is hand_rank_value unchanged by one, two and three "
+            "suit shifts, and do four shifts restore the hand (projection: booleans only, so a wrong-but-invariant value is not an alarm here)", pinned=True),
     ]
 
 
